@@ -742,7 +742,9 @@ def find(req):
     elif "empty-tar" in ob:
         checks = [lambda: finding("F27-empty-plain-tar-not-recognised")]
     elif "_detect_archive" in ob or "MAGIC" in ob or "read_archive" in ob:
-        checks = [check_detect, lambda: matrix(None, [DOCS[:2]])]
+        # routing: every layout on a small set, then the TAR layouts on every member set (the open mode read_archive builds
+        # decides how a compressed container is read: multi-stream files need more than the padding of a two-member archive)
+        checks = [check_detect, lambda: matrix(None, [DOCS[:2]])] + ([lambda: matrix(lambda l: l.startswith("tar"))] if "read_archive" in ob else [])
     elif "_zip_" in ob:
         checks = [lambda: matrix(lambda l: l.startswith("zip"))]
     elif "_tar_" in ob:
